@@ -188,7 +188,7 @@ class C15(HistoryCampaign):
         sc["recorders"] = [rnd.choice(INTERVALS) for _ in range(rnd.randint(1, 4))]
         files = {"logging_interval": rnd.choice([1, 1, 2, 3, 5, -1, -2, -4]), "logging_mode": rnd.choice(["a", "w"])}
         for role in ("logfile", "trajectory", "restart_file"):
-            if rnd.random() < 0.6 and not (role == "restart_file" and sc["driver"] in ("ForceBias", "AdaptiveForceBias")):
+            if rnd.random() < 0.6:
                 files[role] = {"name": role, "as": rnd.choice(["object", "object", "observer"]), "mode": files["logging_mode"]}
         sc["files"] = files
         return sc
